@@ -62,16 +62,29 @@ type Process struct {
 	Cmd    *exec.Cmd
 	Addr   string // proxy listener
 	Output *bytes.Buffer
-	mu     sync.Mutex
+	exited chan struct{}
 }
 
 // StartBinary starts `forwarder run --address 127.0.0.1:<free port> args…` and waits until the
-// listener accepts connections.
+// listener accepts connections. The port is picked beforehand, so another process may grab it in
+// between: the child then exits ("address already in use") and the start is retried on a new port.
 func StartBinary(root string, args []string, env []string) (*Process, error) {
 	bin, err := BuildBinary(root)
 	if err != nil {
 		return nil, err
 	}
+	var lastErr error
+	for attempt := 0; attempt < 4; attempt++ {
+		p, err := startOnce(bin, args, env)
+		if err == nil {
+			return p, nil
+		}
+		lastErr = err
+	}
+	return nil, lastErr
+}
+
+func startOnce(bin string, args []string, env []string) (*Process, error) {
 	port, err := FreePort()
 	if err != nil {
 		return nil, err
@@ -85,16 +98,26 @@ func StartBinary(root string, args []string, env []string) (*Process, error) {
 	if err := cmd.Start(); err != nil {
 		return nil, err
 	}
-	p := &Process{Cmd: cmd, Addr: addr, Output: out}
+	p := &Process{Cmd: cmd, Addr: addr, Output: out, exited: make(chan struct{})}
+	go func() { cmd.Wait(); close(p.exited) }()
 	deadline := time.Now().Add(10 * time.Second)
 	for time.Now().Before(deadline) {
+		select {
+		case <-p.exited:
+			return nil, fmt.Errorf("forwarder exited during start-up: %s", out.String())
+		default:
+		}
 		c, err := net.DialTimeout("tcp", addr, 200*time.Millisecond)
 		if err == nil {
 			c.Close()
-			return p, nil
-		}
-		if cmd.ProcessState != nil {
-			break
+			// make sure it is OUR child that listens (it must still be running a moment later)
+			time.Sleep(20 * time.Millisecond)
+			select {
+			case <-p.exited:
+				return nil, fmt.Errorf("forwarder exited during start-up: %s", out.String())
+			default:
+				return p, nil
+			}
 		}
 		time.Sleep(30 * time.Millisecond)
 	}
@@ -108,12 +131,20 @@ func (p *Process) Stop() {
 		return
 	}
 	p.Cmd.Process.Signal(syscall.SIGTERM)
-	done := make(chan struct{})
-	go func() { p.Cmd.Wait(); close(done) }()
 	select {
-	case <-done:
+	case <-p.exited:
 	case <-time.After(5 * time.Second):
 		p.Cmd.Process.Kill()
-		<-done
+		<-p.exited
+	}
+}
+
+// Alive reports whether the child is still running.
+func (p *Process) Alive() bool {
+	select {
+	case <-p.exited:
+		return false
+	default:
+		return true
 	}
 }
